@@ -225,7 +225,7 @@ theorem clean_pq {c : Cfg} {tid : Tid} {alt : Bool} {t : PThread} {lbl : String}
         | true =>
           have := (hc.exh he).1 t hmem hp
           rw [hta] at this; simp [pastStop] at this
-      refine ⟨(fun k hk => by rw [hco.naErr k hk] at hex; cases hex), ?_, hco.raise, ?_, hco.phase, ?_⟩
+      refine ⟨(fun k hk => by rw [hco.naErr k hk] at hex; cases hex), ?_, hco.raise, ?_, hco.phase, ?_, hco.live⟩
       · intro hpc
         rcases hco.armed hpc with h | ⟨_, h⟩
         · exact Or.inl h
